@@ -70,7 +70,8 @@ func buildC25(n, k int, net uint32) (*world.World, interface{}) {
 
 func genC25(t *rapid.T) c25Case {
 	c := c25Case{}
-	c.N = rapid.OneOf(rapid.IntRange(4, 12), rapid.IntRange(4, ev.Scale(12, 40))).Draw(t, "n")
+	// thorough: one case in five has 13..40 validators (a vote costs 2N public-key decompressions)
+	c.N = rapid.OneOf(rapid.IntRange(4, 12), rapid.IntRange(4, 12), rapid.IntRange(4, 12), rapid.IntRange(4, 12), rapid.IntRange(ev.Scale(4, 13), ev.Scale(12, 40))).Draw(t, "n")
 	c.K = rapid.SampledFrom([]int{0, 2, 2}).Draw(t, "k")
 	c.Net = rapid.SampledFrom([]uint32{2, 1}).Draw(t, "net")
 	c.Ids = rapid.SampledFrom([]int{1, 1, 1, 2, 3}).Draw(t, "ids")
